@@ -21,7 +21,103 @@ def build_cases(rng, tier):
     return cases
 
 
+def reject_cases(rng, tier):
+    """REJECT together with %option yylineno: rules that match newlines and reject (token-level programs of C07)."""
+    import rulesets
+    import patgen
+    n = 40 if tier == "quick" else 800
+    cases = []
+    for i in range(n):
+        r = rng.fork("rjln%d" % i)
+        be = r.weighted([('nr', 4), ('r', 2), ('c99', 2), ('cxx', 2)])
+        prog = rulesets.gen_program(r, trailing=(i % 4 == 0))
+        for rl in prog['rules']:
+            if rl.get('trail') not in (None, '$') and patgen.fixed_len(rl['head']) is None and patgen.fixed_len(rl['trail']) is None:
+                rl['trail'] = None
+        # rules whose alternatives differ in the number of newlines: "a\nb" (rejecting) above "a\n" above the rest
+        a = r.pick([97, 98, 48])
+        prog['rules'].insert(0, {'head': ('str', [a, 10, r.pick([97, 98])]), 'bol': False, 'scs': None, 'trail': None})
+        prog['rules'].insert(1, {'head': ('cat', ('c', a), ('plus', ('c', 10))), 'bol': False, 'scs': None, 'trail': None})
+        nr = len(prog['rules'])
+        pols = {j: r.pick([('never',), ('always',), ('lengt', r.rng(0, 3)), ('first', r.rng(1, 3)), ('never',)]) for j in range(1, nr + 1)}
+        pols[1] = r.pick([('always',), ('first', 2)])
+        pols[2] = r.pick([('never',), ('lengt', 2), ('first', 1)])
+        opts = list(r.pick([[], [], ["-Ce"], ["-Cm"], ["-C"], ["-B"], ["-Ca"]]))
+        opts.append("-8" if prog['csize'] == 256 else "-7")
+        inputs = rulesets.gen_inputs(prog, r.fork("in"), count=3, maxlen=60)
+        inputs.append([a, 10, 98, 120, 10, a, 10, 10, 97, a, 10])
+        cases.append({'id': "rj%d" % i, 'kind': 'rejln', 'prog': prog, 'policies': pols, 'flex_opts': opts, 'inputs': inputs, 'backend': be,
+                      'spelling': r.pick(['REJECT', 'yyreject()']), 'seed': r.s, 'text': '', 'run_scs': [1], 'focus': ['lineno', 'reject']})
+    return cases
+
+
+def worker(case):
+    if case.get('kind') != 'rejln':
+        return engine.stream_worker(case)
+    import os
+    import tokcase
+    from common import Rng
+    wd = os.path.join(engine._ROOT, "c%s" % case['id'])
+    try:
+        res = tokcase.eval_reject_case(engine._FLEX, wd, case['prog'], case['policies'], Rng(case['seed']).fork("print"),
+                                       case['flex_opts'], case['inputs'], backend=case['backend'], spelling=case['spelling'],
+                                       run_scs=case['run_scs'], lineno=True)
+    except Exception as ex:
+        res = {'problems': [('harness-error', repr(ex))], 'lockstep': [], 'streams': []}
+    res['id'] = case['id']
+    return res
+
+
+def judge(ck, flex, scratch, cases, results, stats):
+    sc = [(c, r) for c, r in zip(cases, results) if c.get('kind') != 'rejln']
+    engine.judge_stream(ck, flex, scratch, [c for c, _ in sc], [r for _, r in sc], stats)
+    stats['reject_lineno_events_compared'] = sum(r.get('lines_compared', 0) for c, r in zip(cases, results) if c.get('kind') == 'rejln')
+    for c, r in zip(cases, results):
+        if c.get('kind') != 'rejln':
+            continue
+        c['text'] = r.get('text', '')
+        probs = [p for p in r['problems'] if p[0] != 'inconclusive']
+        for kind, msg in r['problems']:
+            stats.setdefault('problem_kinds', {})
+            stats['problem_kinds'][kind] = stats['problem_kinds'].get(kind, 0) + 1
+        if not probs:
+            continue
+        # the order of the alternatives is C07's subject: here only the line numbers (and anything that stops the comparison)
+        ln = [p for p in probs if p[0] == 'lineno-mismatch']
+        kind, msg = (ln or probs)[0]
+        if kind in ('token-mismatch', 'model-mismatch') or kind.startswith('lockstep'):
+            continue
+        what = {"lineno-mismatch": "yylineno seen by an action of a REJECT scanner differs from the documented count"}.get(kind, kind)
+        ck.violation("%s:%s" % (kind, engine.prog_key(c)), "%s: %s" % (what, msg[:500]),
+                     {'spec': c['text'], 'flex_opts': c['flex_opts'], 'backend': c['backend'], 'policies': c['policies'],
+                      'detail': [list(p) for p in probs[:3]],
+                      'how': "flex <opts> -o s.c s.l; cc; ./s input 0; every action prints L<yylineno> and then rule:yyleng:hash"},
+                     no_input=kind in ('harness-error', 'driver-error', 'tables-unreadable'))
+
+
+def build_all(rng, tier):
+    return build_cases(rng, tier) + reject_cases(rng.fork("reject"), tier)
+
+
 def main(tier):
+    orig = engine.judge
+    engine.judge = judge
+    try:
+        return engine.standard_main(
+            PROP, tier, "Properties_C09.v", build_all,
+            "REJECT scanners with %option yylineno (rules whose alternatives contain different numbers of newlines; every action prints "
+            "the yylineno it sees; compared with rej_tokens_ln, C09_reject_does_not_count_lines); "
+            "programs with %option yylineno (and, every 7th, without it) whose rules match newlines through literals, classes, negated "
+            "classes, '.', (?s:.), definitions and the default rule, combined with yyless / yyunput('\\n') / yyinput; yylineno is printed by "
+            "every action and compared with the stream machine, for which C09_lineno_conservation is proved; "
+            "non-trivial = DFA >= 3 states and >= 2 rules matched",
+            ["per-buffer line numbers of reentrant scanners across buffer switches are the subject of C11"],
+            worker=worker, post=lambda ck, flex, scratch, cases, results, stats: {k: stats.get(k, 0) for k in ['reject_lineno_events_compared']})
+    finally:
+        engine.judge = orig
+
+
+def _old_main(tier):
     return engine.stream_main(
         PROP, tier, "Properties_C09.v", build_cases,
         "programs with %option yylineno (and, every 7th, without it) whose rules match newlines through literals, classes, negated "
